@@ -13,6 +13,10 @@ open CaddyModel.C07
 #print axioms fs_accesses_contained
 #print axioms matcher_candidates_contained
 #print axioms matcher_result_contained
+#print axioms glob_from_request_partial
 #print axioms pathClean_idem
+#print axioms globMatch_never_runs_out_of_fuel
+#print axioms chunkMatch_never_runs_out_of_fuel
+#print axioms fsGlob_never_runs_out_of_fuel
 #print axioms listing_omits_hidden_full_fails
 #print axioms glob_from_request_full_fails
